@@ -29,6 +29,7 @@ import (
 	"regexp"
 	"runtime"
 	"sort"
+	"strconv"
 	"strings"
 	"sync"
 	"sync/atomic"
@@ -50,7 +51,15 @@ type pat struct {
 	S    string `json:"s"`
 }
 
-func (p pat) String() string { return p.Kind + ":" + p.S }
+// String is used in signatures: bytes outside printable ASCII (and the space) are shown escaped.
+func (p pat) String() string {
+	for i := 0; i < len(p.S); i++ {
+		if p.S[i] <= ' ' || p.S[i] > '~' {
+			return p.Kind + ":" + strconv.QuoteToASCII(p.S)
+		}
+	}
+	return p.Kind + ":" + p.S
+}
 
 type setSpec struct {
 	Idx  int   `json:"idx"`
@@ -312,7 +321,8 @@ type harness struct {
 	pos       *atomic.Int64
 	neg       *atomic.Int64
 	distinct  *atomic.Int64
-	legViol   sync.Map // leg -> *atomic.Int64
+	violMu    sync.Mutex
+	pending   map[string][]pendingViol
 	cfgSeen   sync.Map // config key -> struct{}
 	outcomeMu sync.Mutex
 	outcomes  map[string]struct{}
@@ -321,13 +331,56 @@ type harness struct {
 
 const maxViolPerLeg = 12
 
+type pendingViol struct {
+	sig    string
+	detail map[string]any
+}
+
+func violLess(a, b string) bool {
+	if len(a) != len(b) {
+		return len(a) < len(b)
+	}
+	return a < b
+}
+
+// violation keeps, per leg, the maxViolPerLeg smallest signatures (shortest first, then lexicographic), so
+// that what is reported does not depend on the order in which the workers reach the failing cases.
 func (h *harness) violation(leg, sig string, detail map[string]any) {
-	v, _ := h.legViol.LoadOrStore(leg, new(atomic.Int64))
-	if v.(*atomic.Int64).Add(1) > maxViolPerLeg {
+	sig = "leg=" + leg + " " + sig
+	detail["leg"] = leg
+	h.violMu.Lock()
+	defer h.violMu.Unlock()
+	l := h.pending[leg]
+	if len(l) == maxViolPerLeg && !violLess(sig, l[len(l)-1].sig) {
 		return
 	}
-	detail["leg"] = leg
-	h.r.Violation("leg="+leg+" "+sig, detail)
+	for _, x := range l {
+		if x.sig == sig {
+			return
+		}
+	}
+	l = append(l, pendingViol{sig, detail})
+	sort.Slice(l, func(i, j int) bool { return violLess(l[i].sig, l[j].sig) })
+	if len(l) > maxViolPerLeg {
+		l = l[:maxViolPerLeg]
+	}
+	h.pending[leg] = l
+}
+
+func (h *harness) flushViolations() {
+	h.violMu.Lock()
+	defer h.violMu.Unlock()
+	legs := make([]string, 0, len(h.pending))
+	for leg := range h.pending {
+		legs = append(legs, leg)
+	}
+	sort.Strings(legs)
+	for _, leg := range legs {
+		for _, v := range h.pending[leg] {
+			h.r.Violation(v.sig, v.detail)
+		}
+	}
+	h.pending = map[string][]pendingViol{}
 }
 
 // lap records the wall time a leg took (reporting only, never an oracle).
@@ -457,8 +510,6 @@ func toSpecs(sets []idxSet) []setSpec {
 var bitIdx = []int{0, 31, 32, 1023}
 
 func main() {
-	// the matcher allocates a bitmap and several strings per query while the live heap stays small:
-	// collect by heap size instead of by growth ratio (fewer, larger cycles)
 	// The matcher allocates a bitmap and a few strings per query while the live heap of this harness is
 	// tiny, which makes the collector cycle every few MB. A small ballast spaces the cycles out; a large one
 	// is counter-productive here (first touch of fresh memory is very expensive in this VM).
@@ -466,7 +517,7 @@ func main() {
 	defer runtime.KeepAlive(ballast)
 	r := vlib.Start("C11", "exploration")
 	h := &harness{r: r, evals: r.Counter("evaluations"), pos: r.Counter("positive_expected"), neg: r.Counter("negative_expected"),
-		distinct: new(atomic.Int64), outcomes: map[string]struct{}{}, lapStart: time.Now()}
+		distinct: new(atomic.Int64), outcomes: map[string]struct{}{}, lapStart: time.Now(), pending: map[string][]pendingViol{}}
 	if consts.MaxMatchSetLen != 1024 {
 		r.Violation("harness: consts.MaxMatchSetLen != 1024", consts.MaxMatchSetLen)
 		r.Finish()
@@ -596,6 +647,7 @@ func main() {
 	h.lap("multi")
 	r.Set("distinct_nontrivial", int(h.distinct.Load()))
 	r.Set("distinct_outcome_vectors", len(h.outcomes))
+	h.flushViolations()
 	r.Assume("patterns are written in lower case (the statement quantifies letter case over names only; no caller normalises patterns, an upper-case letter in a full/suffix pattern is treated as out-of-alphabet and the pattern is skipped)")
 	r.Assume("the marker bytes '^' and '$' are not used inside full/suffix/keyword patterns of the deciding legs: the keyword automaton sees \"^name$\", so keyword:^a / keyword:b$ act as anchors (counted in marker_divergences, not a violation)")
 	r.Assume("names have no empty label; a name with a trailing dot denotes the same name without it (one dot), letter case of a name is irrelevant")
@@ -1199,6 +1251,7 @@ func replay(r *vlib.Run, h *harness) {
 		}
 	}
 	// a replay decides one case and leaves the evidence file of the last full run untouched
+	h.flushViolations()
 	if r.ViolationCount() > 0 {
 		fmt.Printf("VIOLATION property=C11 replay=%s\n  signature: %s\n", r.ReplayArg, f.Signature)
 		os.Exit(1)
